@@ -179,7 +179,7 @@ package gomatrixserverlib
 //@ func (*eventAllower).commonChecks
 //@   property C07
 //@   frameprop C09
-//@   requires e != nil && e.allowerContext != nil && event != nil && e.userIDQuerier != nil && (e.powerLevelsEvent == nil ==> e.createEvent != nil)
+//@   requires e != nil && e.allowerContext != nil && ctxSafe(*e.allowerContext) && evSafe(event)
 //@   ensures iff: (err == nil) <==> commonSpec(*e, event)
 //@   assigns nothing
 
@@ -214,7 +214,7 @@ package gomatrixserverlib
 //@ func (*allowerContext).defaultEventAllowed
 //@   property C07
 //@   frameprop C09
-//@   requires a != nil && a.provider != nil && event != nil && a.userIDQuerier != nil && (a.powerLevelsEvent == nil ==> a.createEvent != nil)
+//@   requires a != nil && ctxSafe(*a) && evSafe(event)
 //@   ensures iff: (err == nil) <==> (!stMemberErr(a.provider, event.SenderID()) && defaultSpec(*a, event))
 //@   assigns nothing
 
@@ -239,7 +239,7 @@ package gomatrixserverlib
 //@ func (*membershipAllower).membershipAllowed
 //@   property C07
 //@   frameprop C09
-//@   requires m != nil && m.allowerContext != nil && event != nil && m.userIDQuerier != nil && m.createEvent != nil && m.roomVersionImpl != nil && m.provider != nil
+//@   requires m != nil && m.allowerContext != nil && ctxSafe(*m.allowerContext) && evSafe(event) && m.roomVersionImpl != nil
 //@   ensures same-room: err == nil ==> m.create.roomID == event.RoomID().String()
 //@   ensures sender-ok: err == nil ==> maSenderOK(*m, event)
 //@   ensures decision: (m.create.roomID == event.RoomID().String() && maSenderOK(*m, event)) ==> ((err == nil) <==> (firstJoinSpec(*m, event) || ((m.newMember.Membership == "invite" && m.newMember.ThirdPartyInvite != nil) ? tpiSpec(*m) : ((m.targetID == m.senderID) ? selfSpec(*m) : otherSpec(m.senderMember.Membership, m.newMember.Membership, m.oldMember.Membership, effLevel(*m.allowerContext, m.senderID), effLevel(*m.allowerContext, m.targetID), m.powerLevels.Ban, m.powerLevels.Kick, m.powerLevels.Invite)))))
@@ -260,7 +260,7 @@ package gomatrixserverlib
 //@ func (*allowerContext).aliasEventAllowed
 //@   property C07
 //@   frameprop C09
-//@   requires a != nil && event != nil && a.userIDQuerier != nil
+//@   requires a != nil && ctxSafe(*a) && evSafe(event)
 //@   requires senderUser(*a, event)[1] == nil ==> senderUser(*a, event)[0] != nil
 //@   ensures iff: (err == nil) <==> aliasSpec(*a, event)
 //@   assigns nothing
@@ -268,7 +268,7 @@ package gomatrixserverlib
 //@ func (*allowerContext).redactEventAllowed
 //@   property C07
 //@   frameprop C09
-//@   requires a != nil && a.provider != nil && event != nil && a.userIDQuerier != nil && (a.powerLevelsEvent == nil ==> a.createEvent != nil)
+//@   requires a != nil && ctxSafe(*a) && evSafe(event)
 //@   ensures iff: (err == nil) <==> (!stMemberErr(a.provider, event.SenderID()) && redactSpec(*a, event))
 //@   assigns nothing
 
@@ -328,3 +328,69 @@ package gomatrixserverlib
 //@   ensures jr-present: !jrErr(provider) ==> (a.joinRuleEvent == provider.JoinRules()[0] && a.joinRule.JoinRule == jrRule(provider))
 //@   ensures jr-absent: jrErr(provider) ==> (a.joinRuleEvent == nil && a.joinRule == zero(JoinRuleContent))
 //@   assigns a.provider, a.createEvent, a.powerLevelsEvent, a.joinRuleEvent, a.create, a.creators, a.privilegedCreators, a.powerLevels, a.joinRule
+
+//@ func newAllowerContext
+//@   property C09
+//@   requires provider != nil && userIDQuerier != nil && providerLaw(provider) && providerVersionsKnown(provider, userIDQuerier)
+//@   ensures fresh: result != nil && fresh(result)
+//@   ensures fields: result.userIDQuerier == userIDQuerier && result.roomID == roomID
+//@   ensures wf: ctxWF(*result)
+//@   ensures loaded: ctxLoaded(*result, provider)
+
+//@ func (*allowerContext).allowed
+//@   property C07
+//@   frameprop C09
+//@   requires a != nil && ctxSafe(*a) && evSafe(event)
+//@   ensures create: event.Type() == "m.room.create" ==> (called(createEventAllowed) && err == ret(createEventAllowed))
+//@   ensures aliases: event.Type() == "m.room.aliases" ==> (called(aliasEventAllowed) && err == ret(aliasEventAllowed))
+//@   ensures member: event.Type() == "m.room.member" ==> (called(memberEventAllowed) && err == ret(memberEventAllowed))
+//@   ensures power-levels: event.Type() == "m.room.power_levels" ==> (called(powerLevelsEventAllowed) && err == ret(powerLevelsEventAllowed))
+//@   ensures redaction: event.Type() == "m.room.redaction" ==> (called(redactEventAllowed) && err == ret(redactEventAllowed))
+//@   ensures other: (event.Type() != "m.room.create" && event.Type() != "m.room.aliases" && event.Type() != "m.room.member" && event.Type() != "m.room.power_levels" && event.Type() != "m.room.redaction") ==> (called(defaultEventAllowed) && err == ret(defaultEventAllowed))
+//@   calls createEventAllowed same-event: event == old(event)
+//@   calls aliasEventAllowed same-event: event == old(event)
+//@   calls memberEventAllowed same-event: event == old(event)
+//@   calls powerLevelsEventAllowed same-event: event == old(event)
+//@   calls redactEventAllowed same-event: event == old(event)
+//@   calls defaultEventAllowed same-event: event == old(event)
+
+//@ func NewThirdPartyInviteContentFromAuthEvents
+//@   property C07
+//@   requires authEvents != nil
+//@   ensures error: (err != nil) <==> tpiErr(authEvents, token)
+//@   ensures content: err == nil ==> t == jdecoded(ThirdPartyInviteContent, authEvents.ThirdPartyInvite(token)[0].Content())
+//@   calls ThirdPartyInvite C09.footprint-tpi: stateKey == token
+//@   assigns nothing
+
+//@ func (*allowerContext).newMembershipAllower
+//@   property C07
+//@   requires a != nil && authEvents != nil && event != nil
+//@   ensures error: (err != nil) <==> (!verKnown(string(event.Version())) || event.StateKey() == nil || !memberParses(event) || stMemberErr(authEvents, *event.StateKey()) || stMemberErr(authEvents, event.SenderID()) || (evThirdPartyInvite(event) != nil && tpiErr(authEvents, evThirdPartyInvite(event).Signed.Token)))
+//@   ensures context: err == nil ==> (m.allowerContext == a && m.roomVersionImpl != nil && ref(m.roomVersionImpl) == verImplRef(string(event.Version())))
+//@   ensures ids: err == nil ==> (m.targetID == *event.StateKey() && m.senderID == string(event.SenderID()))
+//@   ensures new-member: err == nil ==> (m.newMember.Membership == evMembership(event) && m.newMember.AuthorisedVia == evAuthorisedVia(event) && m.newMember.ThirdPartyInvite == evThirdPartyInvite(event))
+//@   ensures old-member: err == nil ==> m.oldMember.Membership == stMembership(authEvents, *event.StateKey())
+//@   ensures sender-member: err == nil ==> m.senderMember.Membership == stMembership(authEvents, event.SenderID())
+//@   ensures third-party: (err == nil && evThirdPartyInvite(event) != nil) ==> m.thirdPartyInvite == jdecoded(ThirdPartyInviteContent, authEvents.ThirdPartyInvite(evThirdPartyInvite(event).Signed.Token)[0].Content())
+//@   calls NewMemberContentFromAuthEvents C09.footprint-members: authEvents == old(authEvents) && (senderID == *event.StateKey() || senderID == event.SenderID())
+//@   calls NewThirdPartyInviteContentFromAuthEvents C09.footprint-token: authEvents == old(authEvents) && token == evThirdPartyInvite(event).Signed.Token
+//@   assigns nothing
+
+//@ func (*allowerContext).memberEventAllowed
+//@   property C07
+//@   frameprop C09
+//@   requires a != nil && ctxSafe(*a) && evSafe(event)
+//@   ensures loaded: err == nil ==> (called(newMembershipAllower) && ret(newMembershipAllower, 1) == nil && called(membershipAllowed) && ret(membershipAllowed) == nil)
+//@   ensures complete: (called(membershipAllowed) && ret(membershipAllowed) == nil) ==> err == nil
+//@   calls newMembershipAllower provider: authEvents == a.provider && event == old(event)
+//@   calls membershipAllowed same-event: event == old(event) && *m == ret(newMembershipAllower, 0)
+//@   assigns nothing
+
+//@ func (*allowerContext).createEventAllowed
+//@   property C07
+//@   frameprop C09
+//@   requires a != nil && a.userIDQuerier != nil && evSafe(event)
+//@   ensures state-key: err == nil ==> event.StateKeyEquals("")
+//@   ensures first: err == nil ==> len(event.PrevEventIDs()) == 0
+//@   ensures sender: err == nil ==> a.userIDQuerier(a.roomID, event.SenderID())[1] == nil
+//@   assigns nothing
